@@ -38,7 +38,7 @@ def corpus(ctx):
          lambda g: g[0] * g[1] * g[2], [(2, 2, 1)]),
         # derived local between two ranges, used in the inner range's bound; every instance is a startup task
         ("jdf:between.jdf", "between", 2, [("T", 0, 1, 1, 0, 0), ("U", 1, 1, 1, 0, 0)], [r4], lambda g: max(g[0] + 1, 3),
-         lambda g: (g[0] + 1) * (g[0] + 2) // 2, [(3,), (2,)]),
+         lambda g: (g[0] + 1) * (g[0] + 2) // 2, [(3,)]),
         ("repo:examples/Ex02_Chain.jdf", "Ex02_Chain", 1, [("Task", 0, 1, 0, 1, 0)], [r5 if t else r4], lambda g: g[0] + 1, lambda g: 1, [(2,)]),
     ]
 
@@ -225,12 +225,12 @@ def mutants(ctx):
 CLAIMED = True
 MANIFEST = {
  "engine": "cbmc-ptg",
- "text": "parsec-ptgpp is rebuilt from the current sources on every run and run on a corpus of 7 JDF programs (chain with a control flow, "
+ "text": "parsec-ptgpp is rebuilt from the current sources on every run and run on a corpus of 8 JDF programs (chain with a control flow, "
          "2-D grid with descending/non-unit steps and a fan-out range, binary tree with a control gather, derived and local-index "
-         "parameters, ping-pong, and the repository's startup.jdf and Ex02_Chain.jdf). For every task class and every valuation of the "
+         "parameters, a derived local between two ranges that bounds the inner range, ping-pong, and the repository's startup.jdf and Ex02_Chain.jdf). For every task class and every valuation of the "
          "globals in a small box CBMC executes the generated code and SAT queries over symbolic task instances show: (O1) the task "
          "count announced by internal_init equals the number of local instances of the reference execution space; (O2) the chunked "
-         "startup enumeration, driven through its AGAIN re-entries with symbolic startup_iter/chunk, creates each local startup "
+         "startup enumeration, driven through its AGAIN re-entries with symbolic startup_iter/chunk (witnessed re-entry after 2, 4 and 5 created tasks, also inside inner loops), creates each local startup "
          "instance exactly once and nothing else; (O3) iterate_successors emits exactly the reference out-edges (with the right "
          "successor repository and key), and the real parsec_update_deps_with_mask/_counter + parsec_check_IN_dependencies of "
          "parsec.c, run on the generated tables, report 'ready' exactly at the last release of the reference in-edges. "
